@@ -67,6 +67,7 @@ type c17Report struct {
 	TimedOut bool   `json:"timed_out"`
 	Stdout   string `json:"stdout"`
 	Stderr   string `json:"stderr"`
+	WallMs   int64  `json:"wall_ms"`
 }
 
 func (c c17Case) args() []string {
